@@ -23,7 +23,7 @@ pub enum HCase {
     Drop(super::c06b::DropCase),
 }
 
-fn with_multi(seq: BoxedStrategy<History>, weight: u32) -> BoxedStrategy<HCase> {
+pub(super) fn with_multi(seq: BoxedStrategy<History>, weight: u32) -> BoxedStrategy<HCase> {
     prop_oneof![
         4 => seq.prop_map(HCase::Seq),
         weight => multi::strategy().prop_map(HCase::Multi),
@@ -31,7 +31,7 @@ fn with_multi(seq: BoxedStrategy<History>, weight: u32) -> BoxedStrategy<HCase> 
     .boxed()
 }
 
-fn run_multi(case: &MultiCase, ctx: &mut Ctx, prop: &'static str, nontrivial: &[&str]) {
+pub(super) fn run_multi(case: &MultiCase, ctx: &mut Ctx, prop: &'static str, nontrivial: &[&str]) {
     let classes = multi::run(case, ctx, prop);
     ctx.class("multi-completion-driver");
     for c in &classes {
